@@ -469,6 +469,10 @@ func judgeC05Apply(args, real, drv json.RawMessage) *core.Verdict {
 	if v := c05SpecVerdict(args, r.Out, d.Flat); v != nil {
 		return v
 	}
+	// ---- cycle oracle (Props/C05Cycle.lean): `circular` is reported iff some chain runs into a cycle
+	if v := c05CycleVerdict(args, r.Out, d.Flat); v != nil {
+		return v
+	}
 	if !c05MemberOf(r.Out, d.Outs) {
 		return core.Disagree("ApplyExtends outcome is not an outcome of Extends.applyExtendsOrd under any visit order")
 	}
@@ -595,6 +599,65 @@ func c05SpecVerdict(args, realOut json.RawMessage, flat [][]json.RawMessage) *co
 		}
 	}
 	return core.Fail("extends-ne-flatten:"+strings.Join(u, ","), "a resolved service differs from base-then-local flattening (override rules = the C04 merge model) in "+strings.Join(u, ","))
+}
+
+// c05CycleVerdict decides `circular_sound` and `cycle_is_circular` on the real outcome.  The driver's flatten
+// specification classifies every service: it flattens, its chain is longer than the number of distinct (mapping, name)
+// nodes — i.e. it runs into a cycle —, or it has another defect.
+//   - the real code reports `circular` although no chain is cyclic (and no service is null / not a mapping): the tracker
+//     reported a cycle that is not there                                        → circular-without-cycle
+//   - every service flattens or is cyclic, at least one is cyclic, and the real code accepts the document or reports
+//     something else                                                            → cycle-accepted:apply / cycle-misreported:<class>
+func c05CycleVerdict(args, realOut json.RawMessage, flat [][]json.RawMessage) *core.Verdict {
+	if len(flat) == 0 {
+		return nil
+	}
+	nCyc, nOther, nNotSvc := 0, 0, 0
+	for _, e := range flat {
+		if len(e) != 2 {
+			return nil
+		}
+		var o struct {
+			Ok    json.RawMessage `json:"ok"`
+			Err   *string         `json:"err"`
+			Panic *string         `json:"panic"`
+		}
+		if json.Unmarshal(e[1], &o) != nil {
+			return nil
+		}
+		switch {
+		case o.Ok != nil:
+		case o.Err != nil && *o.Err == "flatten:chain-too-long":
+			nCyc++
+		case o.Err != nil && (*o.Err == "flatten:not-a-service" || *o.Err == "flatten:base-not-a-mapping"):
+			nNotSvc++
+			nOther++
+		default:
+			nOther++
+		}
+	}
+	var ro struct {
+		Ok    json.RawMessage `json:"ok"`
+		Err   *string         `json:"err"`
+		Panic *string         `json:"panic"`
+	}
+	if json.Unmarshal(realOut, &ro) != nil || ro.Panic != nil {
+		return nil
+	}
+	var a c05ApplyArgs
+	json.Unmarshal(args, &a)
+	if ro.Err != nil && *ro.Err == "circular" && nCyc == 0 && nNotSvc == 0 {
+		return core.Fail("circular-without-cycle:"+a.trackerClash(), "ApplyExtends reports a circular reference, but no service's chain runs into a cycle")
+	}
+	if nCyc > 0 && nOther == 0 {
+		if ro.Ok != nil {
+			return core.Fail("cycle-accepted:apply", "a chain runs into a cycle and ApplyExtends accepts the document")
+		}
+		if ro.Err != nil && *ro.Err != "circular" {
+			return core.Fail("cycle-misreported:"+*ro.Err, "every service flattens or is cyclic, at least one is cyclic, and ApplyExtends fails with "+*ro.Err+" instead of a circular reference")
+		}
+	}
+	return nil
 }
 
 // ---------------------------------------------------------------- c05.extend
